@@ -26,7 +26,7 @@ import os
 import pickle
 import shutil
 import tempfile
-from datetime import date
+from datetime import date, timedelta
 from pathlib import Path
 
 from harness import shim
@@ -43,6 +43,9 @@ import initialization.initialize_emissions as IE  # noqa: E402
 import initialization.initialize_infrastructure as II  # noqa: E402
 import initialization.preseed as PS  # noqa: E402
 from virtual_world.infrastructure import Infrastructure  # noqa: E402
+from simulation.simulation_manager import SimulationManager  # noqa: E402
+
+from harness.adapters.cache_extract import period_of  # noqa: E402
 
 INPUTS = ["site", "siteType", "equip", "source", "emisRate", "repairDelay", "vw", "prog"]
 FILE_INPUTS = {"site": "site.csv", "siteType": "site_type.csv", "equip": "equipment.csv",
@@ -51,7 +54,9 @@ GEN_FILES = {"seeds": Generator_Files.EMISSION_PRESEED_FILE, "hashes": Generator
              "infra": Generator_Files.INFRA_FILE, "count": Generator_Files.N_SIM_SAVE_FILE,
              "ts": Generator_Files.PRESEED_FILE}
 NP_SEED = 20240917
-MAX_VERSION = 7
+MAX_VERSION = {inp: 7 for inp in INPUTS}
+MAX_VERSION["vw"] = 11          # 3 periods x 4 repair costs
+BASE_DAY = date(2021, 1, 1)
 SRC_INPUT_DIR = os.path.join(shim.REPO_SIM, "inputs", "granular_infrastructure")
 SRC_PARAM_DIR = os.path.join(shim.REPO_SIM, "simulations", "granular_infrastructure")
 
@@ -101,8 +106,6 @@ def base_params():
             params = InputManager().read_and_validate_parameters(files)
         programs = params.pop(pc.Levels.PROGRAM)
         vw = params.pop(pc.Levels.VIRTUAL)
-        vw[pc.Virtual_World_Params.START_DATE] = [2021, 1, 1]
-        vw[pc.Virtual_World_Params.END_DATE] = [2021, 1, 25]
         vw[pc.Virtual_World_Params.N_SITES] = 1
         vw[pc.Virtual_World_Params.REPAIR][pc.Virtual_World_Params.REPAIR_DELAY][pc.Common_Params.FILE] = \
             FILE_INPUTS["repairDelay"]
@@ -113,7 +116,13 @@ def base_params():
 
 def dict_version(vw, programs, inp, v):
     if inp == "vw":
+        # content number v: repair cost 200 + v, simulated period period_of(v) (see cache_extract.PERIODS)
         vw[pc.Virtual_World_Params.REPAIR][pc.Virtual_World_Params.REPAIR_COST][pc.Common_Params.VAL] = [200.0 + v]
+        off, days = period_of(v)
+        a = BASE_DAY + timedelta(days=off)
+        b = a + timedelta(days=days - 1)
+        vw[pc.Virtual_World_Params.START_DATE] = [a.year, a.month, a.day]
+        vw[pc.Virtual_World_Params.END_DATE] = [b.year, b.month, b.day]
     elif inp == "prog":
         prog = sorted(p for p in programs if programs[p][pc.Program_Params.METHODS])[0]
         meth = programs[prog][pc.Program_Params.METHODS][0]
@@ -140,9 +149,9 @@ class Inputs:
             self.set(i, 0)
 
     def set(self, k, v):
-        if not 0 <= v <= MAX_VERSION:
-            raise ValueError("version out of range")
         inp = INPUTS[k]
+        if not 0 <= v <= MAX_VERSION[inp]:
+            raise ValueError("version out of range")
         if inp in FILE_INPUTS:
             with open(self.in_dir / FILE_INPUTS[inp], "w") as fh:
                 fh.write(file_content(inp, v))
@@ -306,8 +315,19 @@ def _label(fid, obj):
     if fid == "infra":
         return "I"
     if fid == "ts":
-        return "T"
+        return "T" + show_period(obj)
     return "E" + fid[4:]
+
+
+def show_period(series):
+    """a daily seed series -> '<first day as offset from BASE_DAY>.<days>' ('?' unless contiguous)"""
+    try:
+        days = sorted(series)
+        if days and all((b - a).days == 1 for a, b in zip(days, days[1:])):
+            return f"{(days[0] - BASE_DAY).days}.{len(days)}"
+    except Exception:
+        pass
+    return "?"
 
 
 def _w_open(file, mode="r", *a, **k):
@@ -440,22 +460,60 @@ class World:
             os.remove(p)
         self.meta.pop(fid, None)
 
-    def run(self, n, crash_at=None, tear=False):
-        """one run of the real initialisation; returns the record of what happened"""
+    def emis_path(self, i):
+        return self.gen / Generator_Files.GEN_INFRA_EMISS.format(i=i)
+
+    def delete_emis(self, i):
+        if os.path.isfile(self.emis_path(i)):
+            os.remove(self.emis_path(i))
+        self.meta.pop(f"emis{i}", None)
+
+    def _manager(self, n, preseed=True):
+        """a SimulationManager shell holding exactly the attributes its three set-up methods read"""
+        inp = self.inputs
+        m = SimulationManager.__new__(SimulationManager)
+        m.generator_dir = self.gen
+        m.preseed_random = preseed
+        m.simulation_count = n
+        m.programs = inp.programs
+        m.methods = methods_of(inp.programs)
+        m.virtual_world = inp.vw
+        m.in_dir = inp.in_dir
+        m.emis_preseed_val = None            # as SimulationManager.setup_properties leaves them
+        m.force_remake_gen = False
+        m.infrastructure = None
+        m.hash_file_exists = False
+        m.seed_timeseries = None
+        m.sim_start_date = inp.start
+        m.sim_end_date = inp.end
+        m.pre_simulation_emissions = inp.pre_sim
+        return m
+
+    def run(self, n, crash_at=None, tear=False, via_manager=True, preseed=True):
+        """one run of the real initialisation; returns the record of what happened.  via_manager: the
+        REAL SimulationManager.check_generator_files -> setup_infrastructure -> setup_emissions pass
+        the arguments (simulation_manager.py); otherwise the three functions are called directly."""
         my_gid = self.gid
         self.gid += 1
         INSTR.reset(crash_at, tear)
         INSTR.active = True
         np.random.seed(NP_SEED)
-        outcome, err, infra = "done", None, None
+        outcome, err, infra, series = "done", None, None, None
         inp = self.inputs
         try:
             with contextlib.redirect_stdout(io.StringIO()), contextlib.redirect_stderr(io.StringIO()):
-                seeds, force = PS.gen_seed_emis(n, self.gen)
-                infra, hfe = II.initialize_infrastructure(
-                    methods_of(inp.programs), inp.programs, inp.vw, self.gen, inp.in_dir, True, seeds, force)
-                IE.initialize_emissions(n, True, seeds, hfe, infra, inp.start, inp.end, self.gen,
-                                        pre_simulation_emissions=inp.pre_sim)
+                if via_manager:
+                    m = self._manager(n, preseed)
+                    m.check_generator_files()
+                    m.setup_infrastructure()
+                    m.setup_emissions()
+                    infra, series = m.infrastructure, m.seed_timeseries
+                else:
+                    seeds, force = PS.gen_seed_emis(n, self.gen)
+                    infra, hfe = II.initialize_infrastructure(
+                        methods_of(inp.programs), inp.programs, inp.vw, self.gen, inp.in_dir, True, seeds, force)
+                    series = IE.initialize_emissions(n, True, seeds, hfe, infra, inp.start, inp.end, self.gen,
+                                                     pre_simulation_emissions=inp.pre_sim)
         except Crash:
             outcome = "crash"
         except (Exception, SystemExit) as e:       # loud failure of the code under test
@@ -477,8 +535,12 @@ class World:
         if outcome == "done":
             mem = (infra_digest(infra), cur_mem)
         self._note_seeds()
+        covers = None
+        if outcome == "done" and series is not None:
+            d0, d1 = inp.start, inp.end
+            covers = all((d0 + timedelta(days=j)) in series for j in range((d1 - d0).days + 1))
         return {"outcome": outcome, "effects": list(INSTR.effects), "mem": mem, "error": err, "infra_obj": infra,
-                "n": n}
+                "n": n, "series_covers_period": covers, "via_manager": via_manager}
 
     def _note_seeds(self):
         st, sd = _load(self.gen / GEN_FILES["seeds"])
@@ -523,7 +585,7 @@ class World:
             rev = {}
             tmp = Inputs(os.path.join(self.root, "hash_in"))
             for k, inp in enumerate(INPUTS):
-                for v in range(MAX_VERSION + 1):
+                for v in range(MAX_VERSION[inp] + 1):
                     tmp.set(k, v)
                     if inp in FILE_INPUTS:
                         h = II.hash_file(tmp.in_dir / FILE_INPUTS[inp])
@@ -563,7 +625,7 @@ class World:
         st, obj = _load(self.gen / GEN_FILES["count"])
         out["count"] = {"absent": "-", "torn": "T"}.get(st) or str(obj)
         st, obj = _load(self.gen / GEN_FILES["ts"])
-        out["ts"] = {"absent": "-", "torn": "T"}.get(st) or "ok"
+        out["ts"] = {"absent": "-", "torn": "T"}.get(st) or show_period(obj)
         em = []
         for i in range(b):
             p = self.gen / Generator_Files.GEN_INFRA_EMISS.format(i=i)
